@@ -21,7 +21,7 @@ ops:
                                          (one exchange as a function of the clock readings the code takes: no kernel
                                           timestamps are assumed; events d:…:<kernel rx|->:… / s:…:<kernel rx|->:… / e / f)
   cli.wrapx tr=ip|scion il= att=<l|c|x>/<attempt>,… [coll=<b>]
-                                      -> ok <tag> | err <kind>   (attempt wrappers over the context state per attempt)
+                                      -> ok <tag> reqs=<n> | err <kind> reqs=<n>   (attempt wrappers over the context state per attempt; reqs = requests that left the host)
   cli.ntsdest tr=ip|scion|scion-local parsed=x<16 bytes>|- port= reach=
                                       -> ok sent=x<ip>:<port>|- res=fail   (destination of the NTS-protected request)
 -/
@@ -340,16 +340,18 @@ def step (_ : Unit) (toks : List String) : Unit × String := Id.run do
       let coll := ((kv? rest "coll").bind parseBool?).getD true
       if rest.length ≠ (if (kv? rest "coll").isSome then 4 else 3) then return ((), "bad-op")
       let g := (wrapCtx false il att).1
+      -- requests that leave the host: exchanges started with a deadline that has not passed
+      let reqs := ((att.take (wrapCtx false il att).2).filter (fun a => a.ctx != .expired)).length
       match tr with
       | .ip =>
         match g.err with
-        | none => return ((), s!"ok {g.ts}")
-        | some e => return ((), s!"err {errName e}")
+        | none => return ((), s!"ok {g.ts} reqs={reqs}")
+        | some e => return ((), s!"err {errName e} reqs={reqs}")
       | .scion =>
         let s := scionWrap1 coll g
         match s.err with
-        | none => return ((), s!"ok {s.ts}")
-        | some _ => return ((), "err nomeas")
+        | none => return ((), s!"ok {s.ts} reqs={reqs}")
+        | some _ => return ((), s!"err nomeas reqs={reqs}")
     | _, _, _ => return ((), "bad-op")
   | ["cli.wrap", il, att] =>
     match (kv? [il] "il").bind parseBool?, (kv? [att] "att").bind (fun s => (s.splitOn ",").mapM parseAttempt?) with
